@@ -3,6 +3,7 @@ selection returns exactly the selected points/weights with the same domain or la
 
 from __future__ import annotations
 
+import math
 import weakref
 
 import numpy as np
@@ -73,9 +74,9 @@ def _state(obj):
 
 def mark(obj, what):
     try:
-        cur = _STATE.get(obj, "")
-        if what not in cur:
-            _STATE[obj] = (cur + "+" + what) if cur else what
+        cur = set(filter(None, _STATE.get(obj, "").split("+")))
+        cur.add(what)
+        _STATE[obj] = "+".join(sorted(cur))
     except TypeError:
         pass
 
@@ -110,7 +111,8 @@ def check_localgrid(ctx, g, center, radius, lg, exc):
         adm = c.shape == pts.shape[1:] and c.dtype.kind in "fiu" and bool(np.all(np.isfinite(c)))
     except Exception:
         adm = False
-    adm = adm and _is_real_number(radius) and not np.isnan(radius) and radius >= 0
+    adm = adm and _is_real_number(radius) and not math.isnan(float(radius)) and radius >= 0
+    adm = adm and bool(np.all(np.isfinite(pts)))
     if not adm:
         ctx.count("localgrid:inadmissible-" + ("rejected" if exc is not None else "accepted"))
         return
@@ -407,7 +409,11 @@ def _rule(name, rng, small=False):
     if name in NEEDS_QUAD:
         q = getattr(od, str(rng.choice(["GaussLegendre", "ClenshawCurtis", "GaussChebyshevType2", "FejerFirst"])))
         return cls(n, q)
-    return cls(n)
+    g = cls(n)
+    while not np.all(np.isfinite(g.points)) and n > 3:  # exp-type rules overflow for many points with their default step
+        n = max(3, (n // 2) | 1)
+        g = cls(n)
+    return g
 
 
 def _rgrid(rng, nmax=8):
@@ -532,7 +538,7 @@ def _fmt_radius(rng, r):
     u = rng.integers(4)
     if u == 0:
         return np.float64(r)
-    if u == 1 and np.isfinite(r) and r == int(r):
+    if u == 1 and np.isfinite(r) and r < 1e9 and r == int(r):
         return int(r)
     return float(r)
 
@@ -585,7 +591,7 @@ def _call(ctx, fn):
         raise
     except Exception as exc:
         if core.is_library_exception(exc):
-            ctx.count("call-raised:" + type(exc).__name__)
+            ctx.count("call-raised:" + type(exc).__name__ + ":" + core.short_tb(exc, 2)[-1] + ":" + str(exc)[:50])
             return None
         raise
 
@@ -708,7 +714,8 @@ def do_select(ctx, g, kind=None, then_query=True):
     index = make_index(rng, n, kind)
     ctx.count("op:select")
     sub = _call(ctx, lambda: g[index])
-    if sub is not None and then_query and hasattr(sub, "get_localgrid") and getattr(sub, "size", 0) > 0:
+    periodic = sub is not None and getattr(sub, "realvecs", np.zeros(0)).size > 0  # queries on lattice grids belong to C11
+    if sub is not None and then_query and not periodic and hasattr(sub, "get_localgrid") and getattr(sub, "size", 0) > 0:
         do_query(ctx, sub, str(rng.choice(["ball", "neartie", "empty", "inf"])))
     return sub
 
@@ -741,7 +748,10 @@ def run_history(ctx, g, nops):
         elif op == "setw":
             do_set_weights(ctx, g)
         elif op == "select":
-            do_select(ctx, g)
+            if type(g).__name__ == "MolGrid":  # MolGrid.__getitem__ is a per-atom accessor, not a selection (not this property)
+                do_query(ctx, g, "ball")
+            else:
+                do_select(ctx, g)
         else:
             do_query(ctx, g, op)
     # every history ends with a decided query after whatever happened before
